@@ -19,7 +19,7 @@ func init() {
 		ID:          "C05",
 		Level:       "other",
 		Run:         runC05,
-		Explanation: "Structural necessary conditions of cache transparency on MVP-3..8: R05.1 every normal return of Run is preceded by the write-back of every cache that can be dirty (L1 before L3 where there are two levels); R05.2 when inserting a line displaces another, the bytes written back are the victim's and go to the victim's own base (value flow from the result of PushLine / PushLineWithEvictionWarning); R05.3 every base passed to PushLine* of a data cache is produced by the alignment function of that cache's line size or copied from a resident line's boundary (so resident lines cannot overlap); R05.4 a store is applied to the cache only under a presence test of all its bytes, and a line fill reads the bytes at the base the line is inserted under; R05.5 a line is inserted only under an absence test (no duplicate copy); R05.6 every per-line table is keyed through one alignment function; R05.9 a line fill compares the byte index with the image length itself (it pads exactly the bytes outside the image); R05.11 both branches of a controller's final write-back of a modified line write it; R05.12/R05.13 without per-line locks the line a miss installs is read from the image in the step that installs it, and a deferred continuation probes the cache only right after installing the line (a snapshot taken when the miss was detected hides a store performed during the latency, and is later written back over it); R05.10 the write-back of a line skips the bytes below address 0 and stops only past the end. Does not decide 'each load returns the latest store' for arbitrary access patterns (needs C10 and values). R05.14 every path to the run step of an instruction that reads memory first assigns the field handed to Run as its memory bytes. R05.15 a store is applied to the cached line only on the side of the presence test on which all its bytes are resident (polarity of the routing). R05.16 the bytes a cache probe returns are used only where the probe's found result is true. R05.17 the membership test of a pending line-fetch interval includes its start address (a second access to the very address being fetched must wait, not fetch a second copy of the line). R05.18 a per-line dirty flag is raised by the function that writes the cached line, and a displaced line is written to memory exactly when its flag is set. R05.20 a line fill builds exactly one line (the loop runs from 0, strictly below the line size, by one). R05.21 a cache probe answers found = true only after every byte address of the access was found, and leaves with found = false at the first absent byte. R05.22 with several data caches, a presence test and the first cache operation it governs concern the same cache. R05.23 a line in the Modified state leaves a core's cache by the command whose handler writes it to the next level; a line in another state by one that does not.",
+		Explanation: "Structural necessary conditions of cache transparency on MVP-3..8: R05.1 every normal return of Run is preceded by the write-back of every cache that can be dirty (L1 before L3 where there are two levels); R05.2 when inserting a line displaces another, the bytes written back are the victim's and go to the victim's own base (value flow from the result of PushLine / PushLineWithEvictionWarning); R05.3 every base passed to PushLine* of a data cache is produced by the alignment function of that cache's line size or copied from a resident line's boundary (so resident lines cannot overlap); R05.4 a store is applied to the cache only under a presence test of all its bytes, and a line fill reads the bytes at the base the line is inserted under; R05.5 a line is inserted only under an absence test (no duplicate copy); R05.6 every per-line table is keyed through one alignment function; R05.9 a line fill compares the byte index with the image length itself (it pads exactly the bytes outside the image); R05.11 both branches of a controller's final write-back of a modified line write it; R05.12/R05.13 without per-line locks the line a miss installs is read from the image in the step that installs it, and a deferred continuation probes the cache only right after installing the line (a snapshot taken when the miss was detected hides a store performed during the latency, and is later written back over it); R05.10 the write-back of a line skips the bytes below address 0 and stops only past the end. Does not decide 'each load returns the latest store' for arbitrary access patterns (needs C10 and values). R05.14 every path to the run step of an instruction that reads memory first assigns the field handed to Run as its memory bytes. R05.15 a store is applied to the cached line only on the side of the presence test on which all its bytes are resident (polarity of the routing). R05.16 the bytes a cache probe returns are used only where the probe's found result is true. R05.17 the membership test of a pending line-fetch interval includes its start address (a second access to the very address being fetched must wait, not fetch a second copy of the line). R05.18 a per-line dirty flag is raised by the function that writes the cached line, and a displaced line is written to memory exactly when its flag is set. R05.20 a line fill builds exactly one line (the loop runs from 0, strictly below the line size, by one). R05.21 a cache probe answers found = true only after every byte address of the access was found, and leaves with found = false at the first absent byte. R05.22 with several data caches, a presence test and the first cache operation it governs concern the same cache. R05.23 a line in the Modified state leaves a core's cache by the command whose handler writes it to the next level; a line in another state by one that does not. R05.24 the interval registered for a line fetch covers the whole line.",
 		Assumptions: []string{"the line cache itself is C13's LRU model"},
 		Trusted:     []string{"go/types", "address provenance engine (prov.go)", "role resolution"},
 	})
@@ -575,6 +575,8 @@ func runC05(r *Run) {
 	r.floor("R05.11", 1)
 	ruleFinalWriteBackBranches(r, "R05.11")
 	// a miss installs the bytes the image holds WHEN the line is installed (shared with C10)
+	r.floor("R05.24", 4)
+	rulePendingIntervalCoversLine(r, "R05.24")
 	r.floor("R05.23", 3)
 	ruleModifiedLeavesByWriteBack(r, "R05.23")
 	r.floor("R05.22", 6)
